@@ -3,6 +3,7 @@ import copy
 import json
 import os
 import random
+import re
 
 ID = "C14"
 TITLE = "RuleDB and RuleDBForgetStrategy: same answers after every insertion; the strategy handed back reproduces the rule"
@@ -17,9 +18,10 @@ MAX_WORD_PACKETS = 30
 MAX_WORD_ADDS = 70
 MAX_TABLE_ADDS = 160
 KNOWN_FOREIGN = "forget-foreign-parent-outside-key"
-# The model follows the code AS IT IS: RecomputingDict.__getitem__ replays the pack on the classes of the key only.
-# With the repair proposed in findings/forget_foreign_parent.patch.diff applied to /repo (replay on every other
-# label afterwards) set this to True (or VERIF_C14_FALLBACK=1) and drop the open finding from known_findings.json.
+# The finding forget-foreign-parent-outside-key is FIXED in /repo by 59cdf67 (RecomputingDict.__getitem__ replays the pack
+# on the classes of the key first and on every other label afterwards): the model follows that code, FALLBACK_ALL_LABELS =
+# True.  For a tree WITHOUT the fix (replay on the classes of the key only) run with VERIF_C14_FALLBACK=0 and list the
+# finding as `open` again; only then does the mask below ever fire.
 FALLBACK_ALL_LABELS = os.environ.get("VERIF_C14_FALLBACK", "1") == "1"
 
 
@@ -654,25 +656,35 @@ def _strong(case):
     return True
 
 
-def oracle(case, res):
-    """The PROPERTY, decided on the two real databases (never through the model)."""
+def _failures(case, res):
+    """The PROPERTY, decided on the two real databases (never through the model): every way in which the case fails,
+    in the order of the history.  A failure after which nothing else can be compared ends the enumeration; the two
+    producers of the open finding (KNOWN_FOREIGN) do NOT: the remaining insertions, the final specification and the
+    pops are still judged, so a second, different failure of a masked case is reported (see `oracle`)."""
     if "exception" in res:
-        return "implementation raised " + res["exception"]
+        yield "implementation raised " + res["exception"]
+        return
     a, b = res["pair"]
     if a["status"] != b["status"]:
-        return "the search ended with %r under RuleDB and with %r under RuleDBForgetStrategy" % (a["exc"], b["exc"])
+        yield "the search ended with %r under RuleDB and with %r under RuleDBForgetStrategy" % (a["exc"], b["exc"])
+        return
     if a["status"] != 0 and _strong(case):
-        return "the search died with %s on a universe honouring the contracts" % a["exc"]
+        yield "the search died with %s on a universe honouring the contracts" % a["exc"]
+        return
     if len(a["steps"]) != len(b["steps"]):
-        return "RuleDB received %d rules, RuleDBForgetStrategy %d: the searches diverged" % (len(a["steps"]), len(b["steps"]))
+        yield "RuleDB received %d rules, RuleDBForgetStrategy %d: the searches diverged" % (len(a["steps"]), len(b["steps"]))
+        return
     if a["classes"] != b["classes"]:
-        return "the two searches labelled different classes"
+        yield "the two searches labelled different classes"
+        return
     if a["live"] != b["live"]:
-        return "has_specification() asked during the search: %r under RuleDB, %r under RuleDBForgetStrategy" % (a["live"], b["live"])
+        yield "has_specification() asked during the search: %r under RuleDB, %r under RuleDBForgetStrategy" % (a["live"], b["live"])
+        return
     strong = _strong(case)
     empty, _strats, order, t = _universe_of(case, res)
     classes, truth = a["classes"], a["truth"]
     tkind = case["kind"] == "table"
+    no_candidate = set()          # stored keys seen to fail with RuntimeError and to have no candidate (the open finding)
 
     def truly(c):
         return bool(empty[c]) if 0 <= c < len(empty) else False
@@ -680,78 +692,157 @@ def oracle(case, res):
     for i, (sa, sb) in enumerate(zip(a["steps"], b["steps"])):
         where = "after insertion %d (add%r)" % (i + 1, tuple(sa["add"]))
         if sa["add"] != sb["add"] or sa["pre"] != sb["pre"]:
-            return "insertion %d differs: %r vs %r: the searches diverged" % (i + 1, sa["add"], sb["add"])
+            yield "insertion %d differs: %r vs %r: the searches diverged" % (i + 1, sa["add"], sb["add"])
+            return
         for name in ("keys_r", "keys_e", "iter"):
             if sa[name] != sb[name]:
-                return "%s: %s differs: RuleDB %r, RuleDBForgetStrategy %r" % (where, name, sa[name], sb[name])
+                yield "%s: %s differs: RuleDB %r, RuleDBForgetStrategy %r" % (where, name, sa[name], sb[name])
+                return
         for s, who in ((sa, "RuleDB"), (sb, "RuleDBForgetStrategy")):
             if s["iter"] != sorted(s["keys_r"] + s["keys_e"]):
-                return "%s: iterating %s does not give the keys of its two stores" % (where, who)
+                yield "%s: iterating %s does not give the keys of its two stores" % (where, who)
+                return
             if s["len"] != [len(s["keys_r"]), len(s["keys_e"])]:
-                return "%s: len() of the stores of %s is %r for %d + %d keys" % (where, who, s["len"], len(s["keys_r"]), len(s["keys_e"]))
+                yield "%s: len() of the stores of %s is %r for %d + %d keys" % (where, who, s["len"], len(s["keys_r"]), len(s["keys_e"]))
+                return
         if sa["verified"] != sb["verified"]:
-            return "%s: is_verified differs: RuleDB %r, RuleDBForgetStrategy %r" % (where, sa["verified"], sb["verified"])
+            yield "%s: is_verified differs: RuleDB %r, RuleDBForgetStrategy %r" % (where, sa["verified"], sb["verified"])
+            return
         if sa["eq"] != sb["eq"] or sa["stops"] != sb["stops"] or sa["empties_after"] != sb["empties_after"]:
-            return "%s: the two databases did different things to the equivalence database / queue / class database" % where
+            yield "%s: the two databases did different things to the equivalence database / queue / class database" % where
+            return
         if not (sa.get("full") and sb.get("full")):
             continue
         if sa["has_spec"] != sb["has_spec"]:
-            return "%s: has_specification() is %r for RuleDB and %r for RuleDBForgetStrategy" % (where, sa["has_spec"], sb["has_spec"])
+            yield "%s: has_specification() is %r for RuleDB and %r for RuleDBForgetStrategy" % (where, sa["has_spec"], sb["has_spec"])
+            return
         if sa["verified_hs"] != sb["verified_hs"]:
-            return "%s: is_verified after has_specification() differs" % where
+            yield "%s: is_verified after has_specification() differs" % where
+            return
         stored = {tuple(k) for k in sa["keys_r"] + sa["keys_e"]}
         if sa["queries"] != sb["queries"]:
-            return "%s: internal: query lists differ" % where
+            yield "%s: internal: query lists differ" % where
+            return
         for q, x, y in zip(sa["queries"], sa["contains"], sb["contains"]):
             want = int(tuple([q[0]] + sorted(q[1])) in stored)
             if x != want or y != want:
-                return "%s: contains(%d, %r) is %r for RuleDB and %r for RuleDBForgetStrategy; the key is %sstored" % (
+                yield "%s: contains(%d, %r) is %r for RuleDB and %r for RuleDBForgetStrategy; the key is %sstored" % (
                     where, q[0], tuple(q[1]), bool(x), bool(y), "" if want else "not ")
+                return
         if sa["cross"] != sb["cross"] or any(c != 1 for c in sa["cross"]):
-            return "%s: looking up a key a store does not hold: RuleDB %r, RuleDBForgetStrategy %r (1 = KeyError)" % (
+            yield "%s: looking up a key a store does not hold: RuleDB %r, RuleDBForgetStrategy %r (1 = KeyError)" % (
                 where, sa["cross"], sb["cross"])
+            return
         for eqv, kname, gname in ((0, "keys_r", "get_r"), (1, "keys_e", "get_e")):
             for k, x, y in zip(sa[kname], sa[gname], sb[gname]):
                 if not 0 <= k[0] < len(classes):
-                    return "%s: stored key %r has an unknown parent label" % (where, k)
+                    yield "%s: stored key %r has an unknown parent label" % (where, k)
+                    return
                 if truth[k[0]] or not strong:
                     continue        # the property speaks about stored rules of NON-EMPTY classes, contracts honoured
                 store = "eqv_rule_to_strategy" if eqv else "rule_to_strategy"
                 if x[0] != 0 or x[2] != 1:
-                    return "%s: RuleDB.%s[%r] %s" % (where, store, k, "raised" if x[0] else
+                    yield "%s: RuleDB.%s[%r] %s" % (where, store, k, "raised" if x[0] else
                                                       "hands back strategy %d, which does not reproduce the rule" % x[1])
+                    return
                 if y[0] == 0 and y[2] != 1:
-                    return "%s: RuleDBForgetStrategy.%s[%r] hands back strategy %d, which does not reproduce the rule" % (
+                    yield "%s: RuleDBForgetStrategy.%s[%r] hands back strategy %d, which does not reproduce the rule" % (
                         where, store, k, y[1])
+                    return
                 if y[0] != 0:
                     known = classes[:len(sb["empties_after"])]       # the classes labelled at that moment
                     cand = t is not None and _candidate_exists(t, order, known, truly, k, bool(eqv), tkind)
-                    if not cand:
-                        return ("%s: %s: RuleDBForgetStrategy.%s[%r] could not recompute the strategy (RuleDB hands back "
-                                "strategy %d): no strategy of the pack produces this rule on a class of the key "
-                                "(the rule has a foreign parent / was produced from another class)" % (
-                                    KNOWN_FOREIGN, where, store, k, x[1]))
-                    return "%s: RuleDBForgetStrategy.%s[%r] raised (code %d) although RuleDB hands back strategy %d" % (
+                    if y[0] == 2 and t is not None and not cand:
+                        # the open finding, and nothing else: RuntimeError('Could not recompute ...') (code 2; a
+                        # KeyError for a stored key is another defect) for a key without a candidate on its own
+                        # classes.  Recorded, and the rest of the history is still judged.
+                        no_candidate.add(tuple(k))
+                        yield ("%s: %s: RuleDBForgetStrategy.%s[%r] could not recompute the strategy (RuleDB hands back "
+                               "strategy %d): no strategy of the pack produces this rule on a class of the key "
+                               "(the rule has a foreign parent / was produced from another class)" % (
+                                   KNOWN_FOREIGN, where, store, k, x[1]))
+                        continue
+                    yield "%s: RuleDBForgetStrategy.%s[%r] raised (code %d) although RuleDB hands back strategy %d" % (
                         where, store, k, y[0], x[1])
+                    return
     if strong and a["status"] == 0:
         sa_, sb_ = a["spec"], b["spec"]
+        # the steps of a shuffle phase belong to the fresh database, the final specification and the pops to the
+        # searcher's own: the popped keys can be named only without a shuffle phase
+        last = a["steps"][-1] if a["steps"] and not case.get("shuffle") else None
+
+        def lacks_candidate(k):
+            """no strategy of the pack produces the rule with flat key k on one of the key's own classes (decided from
+            the table and the true emptiness over all classes labelled at the end; the general-store test, which
+            accepts the most candidates)"""
+            if t is None:
+                return False
+            if tuple(k) in no_candidate:
+                return True
+            return not _candidate_exists(t, order, classes, truly, list(k), False, tkind)
+
         if sa_ and sb_ and sa_[0] != sb_[0]:
-            if sb_[0] == "raised" and sa_[0] == "ok" and ("Could not recompute" in sb_[1] or "Unable to retrieve" in sb_[1]):
-                return "%s: at the end get_specification_rules() works for RuleDB and raises for RuleDBForgetStrategy: %s" % (
+            # the open finding at the end of the search: RecomputingDict's own RuntimeError, naming a stored key that
+            # has no candidate on its own classes.  ("Unable to retrieve rule" was the message of the FIXED defect
+            # 8ca838d and is not accepted any more.)
+            named = re.search(r"for the rule \((\d+), \(([\d, ]*)\)\)", sb_[1]) if sb_[0] == "raised" else None
+            key_named = None
+            if named:
+                key_named = (int(named.group(1)),) + tuple(int(z) for z in named.group(2).replace(",", " ").split())
+            if (sb_[0] == "raised" and sa_[0] == "ok" and sb_[1].startswith("RuntimeError: Could not recompute")
+                    and key_named is not None and lacks_candidate(key_named)):
+                yield "%s: at the end get_specification_rules() works for RuleDB and raises for RuleDBForgetStrategy: %s" % (
                     KNOWN_FOREIGN, sb_[1][:120])
-            return "at the end get_specification_rules(): RuleDB %r, RuleDBForgetStrategy %r" % (sa_, sb_)
-        for x, y in zip(a["pops"], b["pops"]):
+            else:
+                yield "at the end get_specification_rules(): RuleDB %r, RuleDBForgetStrategy %r" % (sa_, sb_)
+                return
+        pop_keys = None
+        if last is not None:
+            pop_keys = sorted(tuple(q) for q in last["keys_r"])[:4] + sorted(tuple(q) for q in last["keys_e"])[:4]
+            if len(pop_keys) != len(a["pops"]) or len(pop_keys) != len(b["pops"]):
+                pop_keys = None
+        for j, (x, y) in enumerate(zip(a["pops"], b["pops"])):
             if x[0] != 0 or x[2] != 0:
-                return "RuleDB store.pop: %r" % (x,)
+                yield "RuleDB store.pop: %r" % (x,)
+                return
             if y[0] == 0 and (y[2] != 0 or x[1] != y[1]):
-                return "store.pop(key): RuleDB %r, RuleDBForgetStrategy %r (code, reproduces, still stored)" % (x, y)
+                yield "store.pop(key): RuleDB %r, RuleDBForgetStrategy %r (code, reproduces, still stored)" % (x, y)
+                return
+            if y[0] != 0 and pop_keys is not None:
+                k = pop_keys[j]
+                if 0 <= k[0] < len(truth) and truth[k[0]]:
+                    continue          # a stored rule of an EMPTY class: not claimed
+                if lacks_candidate(k):
+                    yield "%s: store.pop(%r) could not recompute the strategy under RuleDBForgetStrategy (no candidate on the classes of the key)" % (
+                        KNOWN_FOREIGN, k)
+                    continue
+                yield "store.pop(%r) raised under RuleDBForgetStrategy (%r) although a strategy of the pack produces the rule on a class of the key; RuleDB %r" % (k, y, x)
+                return
+
+
+def _mask_of(case, why):
+    """the open finding a failure text belongs to, or None.  The prefix KNOWN_FOREIGN is only ever put in front of a
+    failure by `_failures` itself, and only after it has established (from the strategy table and the TRUE emptiness,
+    never from the databases under test) that the key has no candidate on its own classes"""
+    if why and why.startswith(KNOWN_FOREIGN + ":"):
+        return KNOWN_FOREIGN
     return None
+
+
+def oracle(case, res):
+    """the FIRST UNMASKED failure of the case; when every failure belongs to the open finding, the first of them
+    (core then prints KNOWN-FINDING); None when there is none"""
+    first_masked = None
+    for why in _failures(case, res):
+        if _mask_of(case, why) is None:
+            return why
+        if first_masked is None:
+            first_masked = why
+    return first_masked
 
 
 def finding_match(case, why):
-    if why and why.startswith(KNOWN_FOREIGN):
-        return KNOWN_FOREIGN
-    return None
+    return _mask_of(case, why)
 
 
 # ----------------------------------------------------------------- bookkeeping
